@@ -36,6 +36,9 @@ func VerifC10Derivative(v *vrt.T) {
 	g := n.newGroup()
 	k := v.Bound("points", 3)
 	batch := v.Choose("edge", 2) == 1
+	if batch {
+		k = v.Bound("batchpoints", 2)
+	}
 	dims := models.Dimensions{TagNames: []string{"t"}}
 	tags := models.Tags{"t": "a"}
 
